@@ -107,6 +107,7 @@ class Engine:
         self.raising_attr_tags = set()  # Opaque tags whose attribute reads may raise anything
         self.inline_depth = 0
         self.auto_inline = True
+        self.approx_opaque_loops = False
         self.max_inline = 3
         self.prune = True
         self._memo_truth = {}
@@ -724,6 +725,9 @@ class Engine:
                 return oa.same(ob)
         if isinstance(a, Cls) and isinstance(b, Cls):
             return z3.BoolVal(a.name == b.name)
+        if type(a) is not type(b) or (isinstance(a, Ref) and isinstance(b, Ref)):
+            # modelled values of different kinds (or two distinct modelled heap objects without __eq__) are unequal
+            return z3.BoolVal(False)
         raise Unsupported(f"== on {a}, {b}")
 
     def _opaque_eq(self, st, a, b):
